@@ -47,6 +47,7 @@ def _build_all():
     _a6()
     _a7()
     _a8()
+    _a10()
 
 
 F32, I32, I64, U8, BOOL, F16 = np.float32, np.int32, np.int64, np.uint8, np.bool_, np.float16
@@ -382,5 +383,14 @@ def _a8():
         from . import fam_layout
 
         fam_layout.register(_reg, P)
+    except ImportError:
+        pass
+
+
+def _a10():
+    try:
+        from . import fam_gated
+
+        fam_gated.register(_reg, P)
     except ImportError:
         pass
